@@ -88,5 +88,18 @@ PROPS["C16"] = {
     "replay_help": "case.kind convert-*: the metric sent; correspondence_code 1 = stored tag list differs from canon(sent) or the validation verdict differs; oracle_code 1 = stored tags not strictly sorted / a key missing / a value never sent; oracle_code 900 = a direct check failed (name, namespace, timestamp, field, hash of stored tags, tag-order invariance), see observed; case.kind route: rows with (id, ts, hash, shard), shard count, interval, window",
 }
 
+PROPS["C14"] = {
+    "harness": "c14",
+    "props_files": ["C14/Props.v"],
+    "n": {"quick": 240, "thorough": 4000},
+    "timeout": {"quick": 900, "thorough": 3000},
+    "level_text": "Theorems (Coq, no axioms, all unbounded in the sequence): XOR float codec round trip at value, bit and byte level for every sequence of 64-bit words; bit.Writer as a state machine equals appending bits plus zero padding; the time-series block (slot bits interleaved with XOR values, uint16 header) decodes to exactly the slots/values for every slot pattern; uvarint/varint/zig-zag round trips; delta bit packing round trip at byte level with int32 wrap-around for reset and never-reset encoders; fixed-width offset tables at byte level for all offsets < 2^32. Tied to the code byte-exactly: the model must produce the same bytes as the real encoders (fresh, pooled, held-and-reused) and decode the real bytes; the real decoders (fresh, pooled, shared across tables of different widths) must return the encoded values sequentially and slot-addressed.",
+    "level_note": "Trusted: roaring bitmap and snappy codecs are thin wrappers over libraries (round-tripped directly by the harness, not modelled); the model of sync.Pool reuse is 'reset = fresh', the reuse histories themselves are exercised on the Go side only.",
+    "rule": "TSD blocks with 0-200 slots (dense, sparse, empty masks; special IEEE patterns incl. NaN payloads, +-0, subnormals, random bit patterns, slowly varying and constant series), start slots up to 65535, with/without header, encoder fresh/pooled/held-reused, decoder fresh/pooled/shared; delta sequences incl. int32 extremes; offset tables at width boundaries 255/256/65535/65536/2^24/2^32-1 with decoder reuse across widths; varints; bitmaps and snappy chunks (direct round trip). Non-trivial: TSD with >= 3 values and >= 1 empty slot; sequences with >= 3 elements; distinct = different JSON",
+    "trusted": ["modelled abstractly / not modelled: lindb/roaring MarshalBinary/FromBuffer, klauspost snappy (round trip checked directly on every run)", "words are MSB-first bit lists in the theorems; the Z <-> bit list conversion of the correspondence check is zbits/bits_z (bits_z (zbits w z) = z mod 2^w is proved)"],
+    "assumptions": ["a TSD block has at most 65535 slots and ends at or before slot 65535 (uint16 slot range)", "delta bit packing encodes at least one value (the format stores count-1)", "TSDDecoder slot-addressed reads are made for ascending consecutive slots (HasValueWithSlot only answers for the next slot)"],
+    "replay_help": "case.kind tsd: start slot, slots (has, 64-bit pattern), with_time, encoder mode; correspondence_code 1 = model bytes differ from the encoder's bytes or the model cannot decode them; oracle_code 1 = the real decoder returned something else than what was encoded (sequential or slot-addressed); kinds delta / fixed-offset / varint analogous; bitmap / snappy are direct round trips (oracle_code 900)",
+}
+
 for _pid in PROPS:
     NOT_APPLICABLE.pop(_pid, None)
